@@ -321,6 +321,13 @@ def normalize_url(
         if trailing_slash and not strip_trailing_slash and path:
             path = path + "/"
 
+    # NOTE: unquoting (and lowercasing) now so that what follows does not
+    # depend on the way the path happens to be escaped (e.g. %69ndex.html)
+    path = safely_unquote_path(path)
+
+    if lowercase:
+        path = upper_quoted(path.lower())
+
     # Handling Google AMP suffixes
     if normalize_amp:
         path = AMP_SUFFIXES_RE.sub("", path)
@@ -436,11 +443,6 @@ def normalize_url(
 
         if quoted:
             password = safely_quote(password, safe=SAFE_FOR_AUTH_ITEM)
-
-    path = safely_unquote_path(path)
-
-    if lowercase:
-        path = upper_quoted(path.lower())
 
     if quoted:
         path = safely_quote(path)
